@@ -199,7 +199,11 @@ def declare_horizon(b):
 def declare_model(b):
     st, sp = b.stage, b.spec
     dyn = sp.get("dyn")
-    for s in sp.get("states", []):
+    states = list(sp.get("states", []))
+    if sp.get("rhs_order"):
+        rank = {n: i for i, n in enumerate(sp["rhs_order"])}
+        states.sort(key=lambda s: rank.get(s["name"], len(rank)))
+    for s in states:
         rhs = sp.get("rhs", {}).get(s["name"])
         if rhs is None:
             continue
